@@ -205,9 +205,9 @@ def minMax (isMin : Bool) (vals : List NV) : M NV :=
         let c := nvCompare x res
         if (if isMin then c == some .lt else c == some .gt) then x
         else if c == some .eq then
-          match x, res with
-          | .fv _, .fv _ => if (if isMin then nvSign x && !nvSign res else !nvSign x && nvSign res) then x else res
-          | _, _ => res
+          -- `_is_neg_zero`: a `Float` zero with the sign set; a `Fraction` zero (a literal) is `+0`
+          let negZero : NV → Bool := fun | .fv w => nvSign (.fv w) && nvIsZero (.fv w) | .q _ _ => false
+          if (if isMin then negZero x && !negZero res else negZero res && !negZero x) then x else res
         else res) v)
 
 def predEval (p : Pred) (C : Ctx) (v : NV) : M Bool :=
